@@ -349,8 +349,9 @@ static void RunGrid(int pattern, bool big, unsigned workers, GridTotals& T, cons
 
     // ---- case list
     std::vector<GridCase> cases;
-    std::vector<std::pair<std::string, int64_t>> tkinds{{"t+512", PatternTime(0, 111, T0)}, {"t=mtp+1", M + 1}};
-    if (big) tkinds.push_back({"t+7000", PatternTime(0, 111, T0) + 7000});
+    const int64_t tip_time = L.blocks.at(base).block.nTime;
+    std::vector<std::pair<std::string, int64_t>> tkinds{{"t+512", std::max(tip_time + 512, M + 1)}, {"t=mtp+1", M + 1}};
+    if (big) tkinds.push_back({"t+7000", tip_time + 7000});
     for (auto& [tname, btime] : tkinds) {
         std::map<int, size_t> used;
         auto coin = [&](int h) { return coins_at.at(h).at(used[h]++ % 10); };
